@@ -14,11 +14,13 @@ CONSTANTS D, Rand
 VARIABLE h
 gvars == <<avars, h>>
 FailOps == {"fa", "fo", "fm"}
-Ops == {"c", "cf", "cs", "cd", "x"} \cup FailOps
+\* ("mg": TrajectoryStore.merge - a static method that opens the input stores itself: the thread that calls it makes stores
+\* like any other way of making one, and is refused like any other when another thread owns the stores)
+Ops == {"c", "cf", "cs", "cd", "mg", "x"} \cup FailOps
 GInit == AInit /\ h = <<>>
 Do(t, op) ==
   /\ Len(h) < D
-  /\ CASE op \in {"c", "cf", "cs", "cd"} -> TryCreate(t) /\ h' = Append(h, [t |-> t, op |-> op, ok |-> Outcome(t, owner)])
+  /\ CASE op \in {"c", "cf", "cs", "cd", "mg"} -> TryCreate(t) /\ h' = Append(h, [t |-> t, op |-> op, ok |-> Outcome(t, owner)])
        [] op = "x" -> Close(t) /\ h' = Append(h, [t |-> t, op |-> op, ok |-> "closed"])
        [] OTHER -> TryFail(t) /\ h' = Append(h, [t |-> t, op |-> op, ok |-> FailOutcome(t, owner)])
 Pick(n) == <<RandomElement(Threads), RandomElement(Ops)>>
